@@ -243,7 +243,7 @@ class fsIndex:
 
         assert tree
 
-        if key is None:
+        if key is None or smallest_prefix != key[:6]:
             smallest_suffix = tree.minKey()
         else:
             try:
@@ -267,7 +267,7 @@ class fsIndex:
 
         assert tree
 
-        if key is None:
+        if key is None or biggest_prefix != key[:6]:
             biggest_suffix = tree.maxKey()
         else:
             try:
